@@ -40,6 +40,7 @@ def engineOp (st : DriverState) (args : List String) : String :=
       let obsS (r : EngineRun) : String := r.sb.game.fen ++ " " ++ obsSpec z r.sb
       let (_, ms, ss) := items.foldl (fun (acc : EngineRun × List String × List String) it =>
         let (r, ms, ss) := acc
+        let isReset := it.startsWith "reset:"
         let (r', okM, okS) : EngineRun × Bool × Bool :=
           if it.startsWith "reset:" then
             let txt := parseRunes (it.drop 6).toString
@@ -72,7 +73,24 @@ def engineOp (st : DriverState) (args : List String) : String :=
               let res' := if res'.getLastD "-" = "-" then res' else res'.dropLast ++ ["*"]
               ({ m := m', sb := ⟨{ g with moves := g.moves.dropLast }, res'⟩ }, ok, true)
           else (r, false, false)
-        (r', ms ++ [(if okM then "ok " else "err ") ++ obsM r'], ss ++ [(if okS then "ok " else "err ") ++ obsS r']))
+        -- a reset reports, besides the state, whether what was accepted is well formed: the reported FEN decodes, re-encodes to
+        -- itself, is the FEN of the board, and the board's hash is the from-scratch hash (C19 for an accepted FEN)
+        let wfM : String :=
+          if !isReset then "" else if !okM then " wf=-" else
+            let p := r'.m.position
+            let bd := r'.m.w.board 0
+            let c := r'.m.w.cur 0
+            let rt := match Fen.decode p.toList with
+              | some d => Fen.encode d.pos d.turn d.noprogress d.fullmoves == p
+              | none => false
+            " wf=" ++ boolStr (rt && Fen.encode c.pos bd.turn c.noprogress bd.moves == p && c.hash == z.hash c.pos bd.turn)
+        let mseg := (if okM then "ok " else "err ") ++ obsM r' ++ wfM
+        let plain := (if okS then "ok " else "err ") ++ obsS r' ++ (if !isReset then "" else if okS then " wf=true" else " wf=-")
+        -- a text the reference decoder rejects: a decoder may also accept it, if what it accepts is well formed (the script
+        -- sets the game up afresh right after such a text, so nothing later depends on the choice)
+        let wild := String.intercalate " " (List.replicate 21 "*")
+        let sseg := if isReset && !okS then s!"<<{plain} ~~ ok {wild} wf=true>>" else plain
+        (r', ms ++ [mseg], ss ++ [sseg]))
         (r0, ["start " ++ obsM r0], ["start " ++ obsS r0])
       String.intercalate " | " ms ++ " ## " ++ String.intercalate " | " ss
   | _ => "bad-op"
